@@ -302,8 +302,7 @@ Section Alpha.
         + apply rrel_eq_bind. intro nv. eapply rrel_bind; [apply (write_rel r s s' x _ G S)|]. intros s1 s1' S1. fin.
       - (* assignment expression *)
         eapply rrel_bind; [apply (EV r G s s' e S P)|]. intros [v s1] [v' s1'] [Hv S1]. cbn [fst snd] in *. subst v'.
-        eapply rrel_bind; [apply (write_rel r s1 s1' x v G S1)|]. intros s2 s2' S2.
-        eapply rrel_bind; [apply (read_rel r s2 s2' x G S2)|]. intros w w' ->. fin.
+        eapply rrel_bind; [apply (write_rel r s1 s1' x v G S1)|]. intros s2 s2' S2. fin.
     Qed.
 
     Lemma ren_not_arr r a : (forall es, a <> EArr es) -> forall es, ren_expr r a <> EArr es.
